@@ -309,6 +309,13 @@ func vfC07Scenarios(thorough bool) []*vfGWScenario {
 			Alphabet: []string{"hb", "sub:a:u", "sub:b:u", "sub:c:u", "score:a:1", "score:c:0", "graft:a:u", "prune:b:t", "leave:u", "join:u", "leave:t", "join:t"},
 			Depth:    d, DevKinds: []string{"peers"}, DevEvents: []string{"hb", "join"}, DevMax: 6})
 	}
+	// S3d: fanout -> join promotion, including a fanout entry that has run empty (peers left, unsubscribed or
+	// fell below the publish threshold) and one that has expired
+	{
+		p2 := []vfPeerCfg{{Name: "a", Proto: "v11", IP: "10.0.0.1"}, {Name: "b", Proto: "v12", IP: "10.0.0.2"}}
+		mk("fanout-join", "d2", p2, []string{"conn:a", "conn:b", "sub:a:t"},
+			[]string{"lpub:t:p1", "lpub:t:p2", "unsub:a:t", "sub:a:t", "sub:b:t", "disc:a", "score:a:-3", "hb", "join:t", "leave:t", "adv:61000"}, d+1)
+	}
 	// S4: fanout -> join promotion, two topics
 	if thorough {
 		mk("grow-d4", "d4", p6, connAll(p6, true),
